@@ -243,13 +243,16 @@ fn search(depth: usize, nrandom: usize, seed: u64, filter: &str) -> i32 {
         let len = 40 + (rnd() % 160) as usize;
         let len = if i % 7 == 3 { 6 + (rnd() % 10) as usize } else { len };
         let burst = rnd() % 3 == 0;
+        // big-bucket scripts: many entries on few distinct timestamps of one bucket (long lists, many ties)
+        let big = i % 7 == 5;
+        let (n, t) = if big { if rnd() % 2 == 0 { (1usize, 3u128) } else { (2usize, 8u128) } } else { (n, t) };
         let mut script: Vec<Op> = vec![];
         let mut now = 0u128; let mut zero = 0usize; let mut rest: Vec<u128> = vec![]; let mut adds = 0usize;
         let mut last_add = 0u128;
         for _ in 0..len {
             let r = rnd() % 100;
-            let op = if r < (if burst { 70 } else { 50 }) {
-                let tm = if burst && rnd() % 2 == 0 && last_add >= now { last_add }
+            let op = if r < (if big { 85 } else if burst { 70 } else { 50 }) {
+                let tm = if big { now + 1 + (rnd() % 4) as u128 } else if burst && rnd() % 2 == 0 && last_add >= now { last_add }
                     else if far { let base = if now > far_base { now } else { far_base }; base + (rnd() % 8) as u128 * t + (rnd() % 3) as u128 }
                     else { now + offs[(rnd() % offs.len() as u64) as usize] + if rnd() % 4 == 0 { (rnd() as u128) % (3 * n as u128 * t + 1) } else { 0 } };
                 last_add = tm;
